@@ -7,6 +7,7 @@ from openapi_python_client.parser.errors import PropertyError
 from openapi_python_client.parser.properties import EnumProperty, LiteralEnumProperty, Schemas
 
 CFG = Config.from_sources(ConfigFile(post_hooks=[]), MetaType.NONE, Path("doc.json"), "utf-8", True, None)
+CFG_LIT = Config.from_sources(ConfigFile(post_hooks=[], literal_enums=True), MetaType.NONE, Path("doc.json"), "utf-8", True, None)
 VALUES = ("a", "A", "a b", "a-b", "a_b", "1", "", "²", "b", "VALUE_0")
 # known-finding class C06-F1 / C14-F1: two values whose derived member key coincides before sanitising (raises
 # ValueError) or after it (silently merged)
@@ -95,3 +96,26 @@ def int_enum_build(n: int, a: int, b: int) -> bool:
     if isinstance(prop, PropertyError):
         return True
     return sorted(prop.values.values()) == sorted(vals) and len(prop.values) == len(vals)
+
+
+VALUE_LISTS = (("PENDING", "SHIPPED"), ("pending", "shipped"), ("SHIPPED", "PENDING"), ("1-low", "2-high"), ("1-urgent", "2-normal"), ("a", "b"), ("c", "d"), ("a",))
+
+
+def enum_same_name_conflict(first: int, second: int, literal: bool) -> bool:
+    """
+    Two enum schemas that resolve to the same class name are the same class only if they list the same values;
+    otherwise the second one is reported (never silently merged into the first), under both enum styles.
+    pre: 0 <= first < 8 and 0 <= second < 8
+    post: _
+    """
+    a, b = list(_pick(VALUE_LISTS, first)), list(_pick(VALUE_LISTS, second))
+    cls = LiteralEnumProperty if literal else EnumProperty
+    cfg = CFG_LIT if literal else CFG
+    p1, schemas = cls.build(data=_schema(a), name="status", required=True, schemas=Schemas(), parent_name="Order", config=cfg)
+    if isinstance(p1, PropertyError):
+        return False
+    p2, schemas2 = cls.build(data=_schema(b), name="status", required=True, schemas=schemas, parent_name="Order", config=cfg)
+    same = sorted(a) == sorted(b)
+    if same:
+        return not isinstance(p2, PropertyError) and p2.class_info == p1.class_info
+    return isinstance(p2, PropertyError) and schemas2.classes_by_name[p1.class_info.name] is p1
